@@ -22,6 +22,9 @@ SmallShifts == {<<dx, dy, dv>> : dx \in -2..2, dy \in -2..2, dv \in -1..1}
 WideShifts == {<<dx, dy, dv>> : dx \in (-4 * Pow2(M))..(4 * Pow2(M)), dy \in {-5, 0, 3}, dv \in {-1, 0, 1}}
 GenShifts == {<<dx, dy, dv>> : dx \in {-5, -4, -1, 0, 1, 3, 4, 8}, dy \in {-4, -1, 0, 1, 5}, dv \in {-1, 0, 2}}
 InitSub == {{s} : s \in SubVox}
+\* generator: a thinner lattice (every boundary case of x and f, three rows per band)
+GenPoints == {p \in GridPoints : p[5] \in {-Pow2(K), -Pow2(K) + 1, -5, -4, -1, 0, 1, 3, 4, Pow2(K) - 1, Pow2(K)}
+                                  /\ p[3] \in {1, 2, 6, 7, 9, Pow2(K) - 1}} \cup LimitPoints
 NoPoints == {}
 NoShifts == {}
 
